@@ -354,6 +354,11 @@ func (bindings *BindStms) compileWildcard(binding *BindStm,
 	// type assertion is guaranteed by the syntax
 	ref := binding.Exp.(*RefExp)
 	var errs ErrorList
+	if pipeline == nil {
+		// A top-level call: there is no self and no sibling call.
+		return wildcardError{err: global.err(ref,
+			"ReferenceError: this binding cannot be resolved outside of a stage or pipeline.")}
+	}
 	if ref.Kind == KindSelf && ref.Id == "" {
 		fakeBindings := make([]BindStm, len(pipeline.InParams.List))
 		for i, m := range pipeline.InParams.List {
